@@ -105,6 +105,57 @@ class FakeDataset:
         return len(self._symx_payload.shape)
 
 
+class RealDataset:
+    """dataset node with concrete content: everything is delegated to the real h5py dataset, but what is read from it is
+    handed to the code under analysis as an array of the numpy model (a real numpy array would escape the model)"""
+
+    def __init__(self, real):
+        object.__setattr__(self, "_real", real)
+
+    @staticmethod
+    def _conv(v):
+        rd = sys.modules.get("geoh5py.io.h5_reader")
+        if rd is None or getattr(rd, "np", None) is real_np:
+            return v            # the reader runs on real numpy right now (outside the engine): nothing to convert
+        if isinstance(v, real_np.ndarray):
+            if v.dtype.names and v.ndim == 0:
+                return v
+            from . import npshim
+            try:
+                return npshim._a(v)
+            except Exception:  # noqa: BLE001 -- dtypes the model does not know stay real
+                return v
+        return v
+
+    def __getitem__(self, k):
+        return self._conv(self._real[k])
+
+    @property
+    def _symx_payload(self):
+        return self._conv(self._real[()]) if self._real.shape == () else self._conv(self._real[:])
+
+    def __len__(self):
+        return len(self._real)
+
+    def __iter__(self):
+        return iter(self[:])
+
+    def __getattr__(self, k):
+        return getattr(self._real, k)
+
+    def __setitem__(self, k, v):
+        self._real[k] = to_real(v)
+
+    def __eq__(self, o):
+        return self._real == _unwrap(o)
+
+    def __hash__(self):
+        return hash(self._real)
+
+    def __bool__(self):
+        return bool(self._real)
+
+
 class PAttrs:
     def __init__(self, real_attrs, path, store):
         self._r = real_attrs
@@ -190,7 +241,7 @@ class PAttrs:
 
 
 def _unwrap(x):
-    return x._r if isinstance(x, PNode) else (x._real if isinstance(x, FakeDataset) else x)
+    return x._r if isinstance(x, PNode) else (x._real if isinstance(x, (FakeDataset, RealDataset)) else x)
 
 
 class PNode:
@@ -204,7 +255,7 @@ class PNode:
         if isinstance(obj, real_h5py.Dataset):
             if obj.name in self._s:
                 return FakeDataset(self._s[obj.name], obj, obj.name)
-            return obj
+            return RealDataset(obj)
         if isinstance(obj, (real_h5py.Group, real_h5py.File)):
             return PNode(obj, self._s)
         return obj
@@ -297,7 +348,7 @@ class PNode:
             dtype = dtype.real
         if dtype is not None:
             args["dtype"] = dtype if not isinstance(dtype, (nd.dtype,)) else dtype.name
-        return self._r.create_dataset(name, data=data, **args, **kw)
+        return RealDataset(self._r.create_dataset(name, data=data, **args, **kw))
 
     def close(self):
         return self._r.close()
@@ -352,7 +403,7 @@ class Group(metaclass=_GroupMeta):
 
 class _DatasetMeta(type):
     def __instancecheck__(cls, x):
-        return isinstance(x, (FakeDataset, real_h5py.Dataset))
+        return isinstance(x, (FakeDataset, RealDataset, real_h5py.Dataset))
 
 
 class Dataset(metaclass=_DatasetMeta):
